@@ -135,6 +135,15 @@ v('C04', 'fire', 'error_model.py', 'B_gyro[np.ix_(samples, self.DV, [0, 1, 2])] 
   'B_gyro[np.ix_(samples, self.DV, [0, 1, 2])] = util.mm_prod(mat_nb, V_skew)', 'seeded C04 round 4: operands of the gyro input block exchanged')
 v('C19', 'fire', 'transform.py', 'result = np.empty_like(diff, dtype=float)', 'result = np.empty_like(diff)',
   'seeded C19 round 4: result buffer inherits an integer dtype (reverts the F7 repair)')
+_PW = ('    lla[:, 1] += np.rad2deg(dr_n[:, 1] / rp)', '    lla[:, 1] = util.to_180_range(lla[:, 1] + np.rad2deg(dr_n[:, 1] / rp))')
+_DW = ('result[:, 1] = np.deg2rad(diff[:, 1]) * rp', 'result[:, 1] = np.deg2rad(util.to_180_range(diff[:, 1])) * rp')
+v('C16 C05', 'fire', 'transform.py', _PW[0], _PW[1], 'seeded C16 round 4: perturb_lla reduces the longitude, the difference does not')
+v('C16 C05', 'silent', 'transform.py', [_PW[0], _DW[0]], [_PW[1], _DW[1]], 'both maps reduce the longitude: consistent')
+v('C16', 'silent', 'transform.py', _DW[0], _DW[1], 'only the difference reduces the longitude: more robust, still inverse')
+v('C16 C01', 'fire', 'earth.py', 'F = (1 - E2) ** 0.5 * GP / GE - 1', 'F = (1 + E2) ** 0.5 * GP / GE - 1', 'survey: Somigliana constant')
+v('C16', 'silent', 'earth.py', 'F = (1 - E2) ** 0.5 * GP / GE - 1', 'F = np.sqrt(1 - E2) * (GP / GE) - 1')
+v('C16 C01 C11 C18', 'fire', 'transform.py', 'DEG_TO_RAD = np.pi / 180', 'DEG_TO_RAD = np.pi / 360', 'survey: degree factor')
+v('C16', 'fire', 'earth.py', 'E2 = 6.6943799901413e-3', 'E2 = 6.6943799901413e-2', 'eccentricity off by a factor 10')
 _VL_OLD = "    n = len(F)\n"
 _VL_NEW = "    n = len(F)\n    if np.linalg.norm(F, 1) * dt > 18:\n        Phi, Qd = compute_process_matrices(F, Q, 0.5 * dt)\n%s\n"
 v('C08', 'fire', KA, _VL_OLD, _VL_NEW % "        Phi = Phi @ Phi\n        return Phi, Phi @ Qd @ Phi.T + Qd", 'seeded C08 round 4: halved step re-composed with the squared transition')
